@@ -267,7 +267,13 @@ class Term(NamedTuple):
         if isinstance(self.index_, str):
             return f"self['{self.name}', {self.index_}]"
 
-        # Otherwise, access as a regular internal variable
+        # Otherwise, access as a regular internal variable (going through the
+        # instance dictionary if the attribute name would otherwise be mangled
+        # inside the class body i.e. for variable names with a leading
+        # underscore)
+        if self.name.startswith('_') and not self.name.endswith('__'):
+            return f"self.__dict__['_{self.name}']" + code[len(self.name) :]
+
         return 'self._' + code
 
 
